@@ -1,7 +1,7 @@
 #!/usr/bin/env python3
 """Sensitivity helper: run a command against a scratch copy of /repo with a change applied.
 
-  tools/mutate.py [--patch FILE]... [--sub 'evo/core/x.py::OLD::NEW']... [--tests] -- ./check C09
+  tools/mutate.py [--patch FILE]... [--sub 'evo/core/x.py@@OLD@@NEW']... [--tests] -- ./check C09
 
 The copy lives under /tmp, VF_REPO points the checks at it, and it is removed afterwards.
 --tests additionally runs the 82 pinned tests against the copy and reports pass/fail counts.
@@ -29,7 +29,7 @@ def main():
             r = subprocess.run(["patch", "-p1", "-s", "-d", repo, "-i", p])
             if r.returncode: sys.exit("patch failed: " + p)
         for s in subs:
-            f, old, new = s.split("::", 2)
+            f, old, new = s.split("@@", 2)
             path = os.path.join(repo, f)
             src = open(path).read()
             if src.count(old) != 1:
